@@ -149,7 +149,7 @@ package mongodb
 //@   trusted BSON conversion + MongoDB ReplaceOne(upsert) of the user-visible document with _orda_ver_ = sseq
 //@   mode math
 //@   props C11
-//@   requires ctx != nil && its.db != nil
+//@   requires ctx != nil
 //@   checks[one-upsert-of-the-users-document] result == nil ==> G.qKind == "ReplaceOne" && G.qUpsert && len(qf()) == 1 && eqAt(qf(), 0, "_id", id)
 //@   checks[version-recorded-last] result == nil ==> G.qDoc != nil && G.qDoc.(bson.M) && G.qDoc.(as bson.M)["_orda_ver_"] == box(sseq)
 //@   checks[database-error-is-reported] G.qCount > old(G.qCount) && G.qErr != nil ==> result != nil
